@@ -264,6 +264,7 @@ func genC12(seed uint64, thorough bool) c12case {
 			// dialogue up to there takes a few milliseconds.
 			cs.weird = "silent"
 			cs.silentAt = r.Intn(n)
+			cs.exact = false // (exact matching of an empty input stalls by itself)
 			cs.segClass, cs.readSize, cs.delayUs, cs.pauseUs, cs.setup = 0, 8192, 20, 0, 0 // clean queue: a stale prompt would answer for the device
 		}
 		// out-of-domain twists (never gate the oracle: the Lean side reports dom = 0 for them)
@@ -1154,7 +1155,7 @@ func c12join(bs [][]byte) string {
 
 func runC12(c *ctx) {
 	res := c.res
-	res.Rule = "sessions of the real drivers over causal dialogue devices: generic.Driver.SendInteractive with 1-6 events (visible/hidden, with/without expected response, early completion through complete patterns, completion pattern after the last event), network.Driver.AcquirePriv against an IOS-like device that asks / grants / refuses / denies / asks with a trailing space / asks something unknown (plus no secret configured, escalate-auth off, two-hop targets), and plain Channel.SendInput eager / not eager; segmentations whole/1-byte/fixed/random, read sizes 1..65536, read delays, transport delivery pauses, CRLF, wrapped echo, exact/fuzzy input matching, search depths from longest line+3 to 1000. non-trivial = in-domain (every read of the operation ended exactly at the end of what the device had printed) case with >= 2 events, or an escalation, or a plain send; distinct by case seed"
+	res.Rule = "sessions of the real drivers over causal dialogue devices: generic.Driver.SendInteractive with 1-6 events (visible/hidden in every order incl. inputs the caller hides but the device echoes, with/without expected response, early completion through complete patterns, completion pattern after the last event, prompt-like status lines held before the expected response, a device that falls silent under a per-operation timeout, rejected operation options); network.Driver.SendInteractive with and without WithPrivilegeLevel over three level trees (IOS, IOS+tclsh with not-contains, junos-like with shell/root-shell) from every start level to every target level (escalation with password question, de-escalation, no change, level acquired before, unknown / non-existent level, mute device); network.Driver.AcquirePriv on the same trees against a device that asks / grants / refuses / denies / asks with a trailing space / asks something unknown / shows an unrelated level first (plus no secret configured, escalate-auth off); plain Channel.SendInput eager / not eager / with an interim prompt; outputs beyond the search depth; segmentations whole/1-byte/fixed/random, read sizes 1..65536, read delays, transport delivery pauses, echo tail held back, CRLF, wrapped echo, exact/fuzzy input matching, search depths from longest line+3 to 1000, clean / stale / shifted queue at the start. non-trivial = in-domain (every read of the operation ended exactly at the end of what the device had printed) case with >= 2 events, or an escalation, or a plain send; distinct by case seed"
 	if c.replay != "" {
 		f := strings.Fields(c.replay)
 		if len(f) >= 2 && f[0] == "c12case" {
@@ -1430,7 +1431,21 @@ func c12check(c *ctx, cases []c12case) {
 		}
 		nontriv := allDom && okAll && (cs.kind != "inter" || len(cs.events) >= 2)
 		res.Case(key, nontriv)
+		res.Count(fmt.Sprintf("exact:%v", cs.exact))
+		res.Count(fmt.Sprintf("echo wrapped:%v tail-held:%v", cs.wrap > 0, cs.echoTail > 0))
+		if cs.kind == "inter" || cs.kind == "send" {
+			res.Count(fmt.Sprintf("per-op-timeout-option:%v", cs.silentAt >= 0 || cs.seed%4 == 0))
+		}
 		if cs.kind == "inter" || cs.kind == "netinter" {
+			res.Count(fmt.Sprintf("events:%d", len(cs.events)))
+			early := "none"
+			switch {
+			case cs.earlyAt >= 0 && cs.earlyAt < len(cs.events)-1:
+				early = "cuts-short"
+			case cs.earlyAt >= 0:
+				early = "after-last-event"
+			}
+			res.Count(fmt.Sprintf("complete-patterns:%d early-completion:%s", len(cs.complete), early))
 			order, big := "", false
 			for _, e := range cs.events {
 				switch {
@@ -1490,8 +1505,15 @@ func c12check(c *ctx, cases []c12case) {
 		}
 		if cs.badOpt != "" {
 			// an operation whose options are rejected types nothing of the dialogue
-			if o.err != "badoption" {
-				res.Fail("oracle", caseLine, fmt.Sprintf("an operation option failed (%s) but the operation returned error class %s", cs.badOpt, o.err), "bad-option:"+o.err)
+			wantErr := "badoption"
+			if cs.kind == "netinter" && cs.badOpt == "channel" {
+				// the network driver acquires the level before the channel looks at the options
+				if _, aerr := c12expectAcquire(cs, c12treeByName(cs.tree)); aerr != "nil" {
+					wantErr = aerr
+				}
+			}
+			if o.err != wantErr {
+				res.Fail("oracle", caseLine, fmt.Sprintf("an operation option failed (%s): the operation returned error class %s, expected %s", cs.badOpt, o.err, wantErr), "bad-option:"+o.err)
 			} else if o.typed {
 				res.Fail("oracle", caseLine, fmt.Sprintf("an operation option failed (%s) but part of the dialogue was written", cs.badOpt), "typed-despite-option-error")
 			}
